@@ -222,7 +222,7 @@ def h_adjacency(nrec, header):
     coherent('adjacency:coherent', t, **sig)
 
 
-ID_VARIANTS = ['ok', 'dup-first-last', 'dup-adjacent', 'too-few', 'too-many']
+ID_VARIANTS = ['ok', 'dup-first-last', 'dup-adjacent', 'too-few', 'too-many', 'too-many-with-dup']
 MD_VARIANTS = ['none', 'ok', 'ok-with-null', 'too-short', 'too-long', 'string-entry', 'int-entry', 'list-entry',
                'zero-int-entry', 'empty-string-entry', 'empty-list-entry', 'false-entry',
                'all-zero-ints', 'all-empty-strings', 'too-short-all-null', 'too-long-all-null', 'empty-list', 'empty-tuple']
@@ -237,6 +237,8 @@ def _ids(variant, base):
         return [base[0], base[0]] + list(base[2:])
     if variant == 'too-few':
         return list(base[:-1])
+    if variant == 'too-many-with-dup':
+        return list(base) + [base[0]]
     return list(base) + ['extra']
 
 
